@@ -20,7 +20,9 @@ func (*engine) ID() string { return "C15" }
 func (*engine) CoqHeader() string {
 	return "From Eino Require Import Base.Util Base.FMUniverse Model.FieldMap Corr.C15.\n" +
 		"(* struct environment generated from the harness's Go declarations by reflection *)\n" +
-		"Definition genv : senv := " + coqEnv() + ".\n"
+		"Definition genv : senv := " + coqEnv() + ".\n" +
+		"(* promoted fields of embedded structs, by reflection *)\n" +
+		"Definition gpenv : penv := " + coqPenv() + ".\n"
 }
 func (*engine) CoqCaseType() string { return "ccase" }
 
@@ -181,7 +183,7 @@ func coqTerm(c *Case, o *outcome) string {
 	for _, s := range c.Statics {
 		sts = append(sts, lib.CoqPair(coqPath(s.To), s.Val.coq()))
 	}
-	return "(MkCase genv " + coqTy(c.T) + " " + lib.CoqList(ds) + " " + lib.CoqList(sts) + " " + lib.CoqList(srcs) + " " + lib.CoqList(chunks) +
+	return "(MkCase genv gpenv " + coqTy(c.T) + " " + lib.CoqList(ds) + " " + lib.CoqList(sts) + " " + lib.CoqList(srcs) + " " + lib.CoqList(chunks) +
 		" " + oc + " " + oi + " " + os + " " + lib.CoqBool(len(o.SrcMod) > 0) + " [] [])"
 }
 
@@ -205,9 +207,10 @@ func (c *Case) normalize() {
 	c.Statics = out
 }
 
-func (e *engine) runUnit(c *Case) lib.Result {
+func (e *engine) runUnit(orig *Case) lib.Result {
 	var res lib.Result
-	outs := executeUnit(c)
+	outs := executeUnit(orig)
+	c := orig.expanded() // the oracle works on the resolved spelling of the keys
 	res.Obs = outs
 	fail := func(sig, what string) {
 		if res.Oracle == "" {
@@ -248,10 +251,10 @@ func (e *engine) runUnit(c *Case) lib.Result {
 		obs = append(obs, lib.CoqPair(r, lib.CoqBool(o.SrcMod)))
 	}
 	var sts []string
-	for _, s := range c.Unit {
+	for _, s := range orig.Unit {
 		sts = append(sts, lib.CoqPair(coqPath(s.To), s.Val.coq()))
 	}
-	res.CoqTerm = "(MkCase genv " + coqTy(c.T) + " [] [] [] [] OOther RNone SNone false " + lib.CoqList(sts) + " " + lib.CoqList(obs) + ")"
+	res.CoqTerm = "(MkCase genv gpenv " + coqTy(c.T) + " [] [] [] [] OOther RNone SNone false " + lib.CoqList(sts) + " " + lib.CoqList(obs) + ")"
 	res.Nontrivial = len(c.Unit) >= 2
 	res.Tags = []string{"unit", "T:" + c.T, fmt.Sprintf("unit-keys:%d", len(c.Unit)), fmt.Sprintf("unit-outcomes:%d", len(outs))}
 	if conflict {
@@ -270,16 +273,19 @@ func (e *engine) runUnit(c *Case) lib.Result {
 }
 
 func (e *engine) Run(ci any) lib.Result {
-	c := ci.(*Case)
-	if len(c.Unit) > 0 {
-		return e.runUnit(c)
+	orig := ci.(*Case)
+	if len(orig.Unit) > 0 {
+		return e.runUnit(orig)
 	}
-	c.normalize()
+	orig.normalize()
 	var res lib.Result
 	outs := make([]*outcome, reps)
 	for i := range outs {
-		outs[i] = execute(c)
+		outs[i] = execute(orig)
 	}
+	// the oracle and the reference work on the resolved spelling of the paths (promoted fields spelled out);
+	// the implementation and the model get the paths as declared
+	c := orig.expanded()
 	o := outs[0]
 	res.Obs = o
 	fail := func(sig, what string) {
@@ -426,7 +432,7 @@ func (e *engine) Run(ci any) lib.Result {
 
 	// --- model side
 	if o.Invoke != "hang" && o.Stream != "hang" {
-		res.CoqTerm = coqTerm(c, o)
+		res.CoqTerm = coqTerm(orig, o)
 	}
 
 	// --- bookkeeping
@@ -454,6 +460,15 @@ func (e *engine) Run(ci any) lib.Result {
 	}
 	if len(c.Statics) > 0 {
 		res.Tags = append(res.Tags, fmt.Sprintf("statics:%d", len(c.Statics)))
+	}
+	if fmt.Sprint(allTargets(orig)) != fmt.Sprint(tps) {
+		res.Tags = append(res.Tags, "promoted-target")
+	}
+	for i := range c.Decls {
+		if fmt.Sprint(c.Decls[i].Maps) != fmt.Sprint(orig.Decls[i].Maps) {
+			res.Tags = append(res.Tags, "promoted")
+			break
+		}
 	}
 	if c.Mid {
 		res.Tags = append(res.Tags, "succ:mid")
